@@ -49,3 +49,26 @@ class Oracle:
 def convert_all(names, kw=None, workers=14):
     reqs = [{"iupac": n, "kw": kw or {}} for n in names]
     return C.run_impl_parallel("convert_many", reqs, workers=workers)
+
+
+def same_many(pairs, workers=12):
+    """same_molecule for many pairs of SMILES, in a pool of driver processes; identical strings are the same molecule"""
+    import threading
+    from concurrent.futures import ThreadPoolExecutor
+    local = threading.local()
+    made = []
+
+    def one(ab):
+        a, b = ab
+        if a == b:
+            return True
+        if not hasattr(local, "orc"):
+            local.orc = Oracle()
+            made.append(local.orc)
+        return local.orc.same(a, b)
+
+    with ThreadPoolExecutor(max_workers=workers) as ex:
+        out = list(ex.map(one, pairs))
+    for o in made:
+        o.close()
+    return out
